@@ -187,6 +187,66 @@ func genMotif(rt *rapid.T, w *World, motif int) {
 		for i, n := 0, draw(rt, "m.unfixable", 0, 1, 2, 2, 3); i < n; i++ {
 			w.Vulns = append(w.Vulns, affect(fmt.Sprintf("V%d", 3+i), x, top...))
 		}
+	case 5: // npm: two different two-package patches that agree on the first package's new range
+		a, b, x, y := nm[0], nm[1], nm[2], nm[3]
+		if a > b {
+			a, b = b, a
+		}
+		f := form("m.form")
+		swap := chance(rt, "m.swap", 1, 2) // which of the two advisories needs the longer relaxation
+		p2, p3 := y, x
+		if swap {
+			p2, p3 = x, y
+		}
+		w.Universe = []Pkg{
+			pkg(a, ver("1.0.0", Dep{Name: x, Req: req(f, "1.0.0")}, Dep{Name: y, Req: req(f, "1.0.0")}), ver("2.0.0")),
+			pkg(b, ver("1.0.0", Dep{Name: x, Req: req(f, "1.0.0")}, Dep{Name: y, Req: req(f, "1.0.0")}), ver("2.0.0", Dep{Name: p2, Req: req(f, "1.0.0")}), ver("3.0.0", Dep{Name: p3, Req: req(f, "1.0.0")})),
+			pkg(x, ver("1.0.0")),
+			pkg(y, ver("1.0.0")),
+		}
+		direct(a, req(form("m.aform"), "1.0.0"), "dependencies")
+		direct(b, req(form("m.bform"), "1.0.0"), "dependencies")
+		w.Vulns = []VulnSpec{affect("V1", x, "1.0.0"), affect("V2", y, "1.0.0")}
+	case 6: // Maven: one advisory over two direct dependencies, one override made ineffective by a hard requirement
+		p, q, r, t := nm[0], nm[1], nm[2], nm[3]
+		hard := draw(rt, "m.hard", "[1.0.0]", "[1.0.0]", "[1.0.0,1.1.0)", "1.0.0")
+		w.Universe = []Pkg{
+			pkg(p, ver("1.0.0"), ver("1.1.0", Dep{Name: t, Req: "1.0.0"})),
+			pkg(q, ver("1.0.0"), ver("1.1.0")),
+			pkg(r, ver("1.0.0", Dep{Name: q, Req: hard})),
+			pkg(t, ver("1.0.0"), ver("1.1.0")),
+		}
+		direct(p, "1.0.0", "dependencies")
+		direct(q, "1.0.0", "dependencies")
+		direct(r, "1.0.0", "dependencies")
+		w.Vulns = []VulnSpec{{ID: "V1", Affected: []Aff{{Pkg: p, Versions: []string{"1.0.0"}}, {Pkg: q, Versions: []string{"1.0.0"}}}}}
+		if chance(rt, "m.tvuln", 3, 4) {
+			w.Vulns = append(w.Vulns, affect("V2", t, "1.0.0"))
+		}
+		if chance(rt, "m.pvuln", 1, 2) {
+			w.Vulns = append(w.Vulns, affect("V3", p, "1.0.0"))
+		}
+	case 7: // npm: introduced vulnerabilities that re-introduce each other (the same set reached twice)
+		dd, b0, ba, bb := nm[0], nm[1], nm[2], nm[3]
+		f := form("m.form")
+		third, fourth := bb, ba
+		if chance(rt, "m.swap", 1, 2) {
+			third, fourth = ba, bb
+		}
+		w.Universe = []Pkg{
+			pkg(dd,
+				ver("1.0.0", Dep{Name: b0, Req: req(f, "1.0.0")}),
+				ver("2.0.0", Dep{Name: ba, Req: req(f, "1.0.0")}, Dep{Name: bb, Req: req(f, "1.0.0")}),
+				ver("3.0.0", Dep{Name: third, Req: req(f, "1.0.0")}),
+				ver("4.0.0", Dep{Name: fourth, Req: req(f, "1.0.0")}),
+				ver("5.0.0")),
+			pkg(b0, ver("1.0.0")), pkg(ba, ver("1.0.0")), pkg(bb, ver("1.0.0")),
+		}
+		if chance(rt, "m.noclean", 1, 4) {
+			w.Universe[0].Vers = w.Universe[0].Vers[:4]
+		}
+		direct(dd, req(form("m.dform"), "1.0.0"), "dependencies")
+		w.Vulns = []VulnSpec{affect("V1", b0, "1.0.0"), affect("V2", ba, "1.0.0"), affect("V3", bb, "1.0.0")}
 	}
 	for i := range w.Vulns {
 		w.Vulns[i].Severity = draw(rt, fmt.Sprintf("m.sev%d", i), "", "", "high", "low")
